@@ -110,7 +110,9 @@ func identNames(base string) []string {
 	return nil
 }
 
-var patternPool = []string{"(ab+)|(cd+)", "([0-9]+)|(none)", "[a-z]+", "a", "a|b", "ab|cd", "(ab)*", "[0-9]{2,3}", ".*x", "x.*", "[^ ]*", "a.c", "é+"}
+var patternPool = []string{"(ab+)|(cd+)", "([0-9]+)|(none)", "[a-z]+", "a", "a|b", "ab|cd", "(ab)*", "[0-9]{2,3}", ".*x", "x.*", "[^ ]*", "a.c", "é+",
+	// the block escape of XML Schema, alone and as a member of a bracket expression
+	"\\p{IsBasicLatin}+", "[\\p{IsBasicLatin}é]+", "[^\\p{IsBasicLatin}]+", "x[\\p{IsBasicLatin}]*", "[é\\p{IsBasicLatin}]{1,3}"}
 
 func (g *gen) rangeOver(lo, hi *big.Int, fd int) string {
 	// 1-3 ascending parts with small gaps, anchored near the type bounds or near zero
